@@ -159,6 +159,20 @@ theorem failed_store_commit_retry_ok_when_repaired :
     (exec 2 .all (run 2 .all Node.init [(.store b0, .none), (.store b1, .failAt 0)]) (.store b1) .none).2
       = .ok := by decide
 
+/-- The tree as it is after the fix commits 84d7a3b (L3) and 702b167 (L15): only L4 is left. -/
+def fxNow : Fixes := ⟨false, true, true⟩
+
+/-- L4 is still there in that tree … -/
+theorem failed_store_commit_blocks_retry_now :
+    (exec 2 fxNow (run 2 fxNow Node.init [(.store b0, .none), (.store b1, .failAt 0)]) (.store b1) .none).2
+      = .err .range := by decide
+
+/-- … while L15 and L3 are gone. -/
+theorem crossing_revert_then_crash_ok_now :
+    (exec 2 fxNow
+      (run 2 fxNow Node.init [(.store b0, .none), (.store b1, .none), (.store b2, .none),
+        (.revert, .none), (.revert, .crashAfter 0)]) (.store b1') .none).2 = .ok := by decide
+
 /-- L4 (revert): after a failed RevertHead commit the head block is still on disk but the
 in-memory filter has lost its bits (event queries miss the head block's events). -/
 theorem failed_revert_commit_loses_head_bits :
